@@ -791,6 +791,10 @@ def run(run, model):
     # an unbalanced event stream makes the tree builder panic on the input that triggers it (shared with C12 R12.11)
     from rules import c12 as _c12
     run.try_rule(_c12.r12_11, model)
+    run.rule("R04.28", "an end-of-input question costs no stuck-parser fuel: Parser::eof reads the token stream, not the fuel-limited peek() - "
+                       "the Pratt loops ask eof() once per open frame while a right-nested chain unwinds, so a fuel-spending eof() halves the "
+                       "nesting the budget covers and the pretended end of input then reaches an `assert!(p.at(..))` (shared with C12 R12.2)")
+    run.try_rule(lambda r, m: _c12.eof_fuel(r, m, "R04.28"), model)
     # an ill-typed pattern that passes the typer makes the match compiler panic (shared with C03 R03.5)
     from rules import c03 as _c03
     run.try_rule(_c03.r03_5, model)
